@@ -49,6 +49,28 @@ CHECKS["C09"] = (
     "not asserted (the documentation does not fix them).",
     "TLA+ denotational score semantics evaluated by TLC over recorded searches")
 
+CHECKS["C11"] = (
+    "model_checking",
+    "MatcherTrace.tla is the cursor model (remaining-list state per matcher object; next/skip_to/reset/copy/"
+    "all_ids/replace(0)/skip_to_quality(0) as actions). Random call programs over the matchers that real queries "
+    "produce (top-level MultiMatcher trees and per-segment trees, array and tree unions, filters, spans) are "
+    "recorded and every event is validated by TLC; the reference list is also judged against QuerySem!Denote.",
+    "DESIGN.md 4.4, 5 (C11)",
+    "Trusted: TLC, the recorder in harness/mtrace.py (it observes through copy() of the matcher, so copy "
+    "independence is exercised by every observation). Programs are random, not exhaustive.",
+    "TLA+ cursor specification; code->spec trace validation of recorded matcher call programs")
+CHECKS["C12"] = (
+    "model_checking",
+    "Same cursor model with the quality clauses: block_quality >= current score (and every score of the current "
+    "posting block for term matchers), max_quality >= every remaining score, skip_to_quality(q)/replace(q) never "
+    "lose an entry scoring more than q, for thresholds below/at/between/above the scores. Exact regime plus a rank "
+    "regime in which all floats of a trace are replaced by their ranks, for BM25F variants, TF_IDF, PL2, DFree, "
+    "Frequency, Multi/Function/Reverse weighting.",
+    "DESIGN.md 4.4, 5 (C12)",
+    "Rank interning preserves every comparison the spec makes; no tolerance. Known findings (PL2/DFree/Reverse "
+    "bounds, unscaled WrappingMatcher.replace) are tolerated only for their exact clause/weighting.",
+    "TLA+ cursor+bounds specification; code->spec trace validation")
+
 NOT_YET = {}
 
 
